@@ -86,7 +86,8 @@ theorem sample_params_spec (a b : K) (n : ℕ) (hn : 2 ≤ n) (hab : a < b) :
 
 /-- **Parameter list / curve grid**: `evaluate_list(params)` (and the sampled curve grid, which is
     `evaluate_list(linspace …)`) returns, at position `i`, exactly the point `evaluate_single` returns
-    for the `i`-th parameter; the list has one point per parameter. -/
+    for the `i`-th parameter; the list has one point per parameter.
+    (Unfolding lemma: the model of `evaluate_list` IS the `map` of the single-point evaluation over the parameter list; the content is the correspondence check of that model with the real routine.) -/
 theorem curve_list_eq_single (rat : Bool) (p : ℕ) (U : ℕ → K) (P : List (List K)) (ks : List K) (i : ℕ)
     (hi : i < ks.length) :
     (curveGrid rat p U P ks).length = ks.length ∧
@@ -94,7 +95,8 @@ theorem curve_list_eq_single (rat : Bool) (p : ℕ) (U : ℕ → K) (P : List (L
   ⟨curveGrid_length rat p U P ks, curveGrid_getD rat p U P ks i hi⟩
 
 /-- **Surface grid: size and ordering.**  The sampled grid has `|us| · |vs|` points and the point with
-    flat index `i · |vs| + j` (u slowest, v fastest) is the surface point at `(us[i], vs[j])`. -/
+    flat index `i · |vs| + j` (u slowest, v fastest) is the surface point at `(us[i], vs[j])`.
+    (Unfolding lemma (indexing of a `flatMap`/`map`: the model IS this double loop); what ties it to the code is the correspondence check.) -/
 theorem surface_grid_index (rat : Bool) (pu pv : ℕ) (Uu Uv : ℕ → K) (su sv : ℕ) (P : List (List K))
     (kus kvs : List K) (i j : ℕ) (hi : i < kus.length) (hj : j < kvs.length) :
     (surfaceGrid rat pu pv Uu Uv su sv P kus kvs).length = kus.length * kvs.length ∧
@@ -102,7 +104,8 @@ theorem surface_grid_index (rat : Bool) (pu pv : ℕ) (Uu Uv : ℕ → K) (su sv
       = projIf rat (surfacePoint pu pv Uu Uv su sv P (kus.getD i 0) (kvs.getD j 0)) :=
   ⟨surfaceGrid_length rat pu pv Uu Uv su sv P kus kvs, surfaceGrid_getD rat pu pv Uu Uv su sv P kus kvs i j hi hj⟩
 
-/-- **Volume grid: size and ordering** (u slowest, then v, w fastest). -/
+/-- **Volume grid: size and ordering** (u slowest, then v, w fastest).
+    (Unfolding lemma (indexing of nested `flatMap`s), as for surfaces.) -/
 theorem volume_grid_index (rat : Bool) (pu pv pw : ℕ) (Uu Uv Uw : ℕ → K) (su sv sw : ℕ) (P : List (List K))
     (kus kvs kws : List K) (i j k : ℕ) (hi : i < kus.length) (hj : j < kvs.length) (hk : k < kws.length) :
     (volumeGrid rat pu pv pw Uu Uv Uw su sv sw P kus kvs kws).length = kus.length * (kvs.length * kws.length) ∧
